@@ -53,3 +53,22 @@ Theorem C09_frame_in_every_state_of_every_interleaving : forall (w1 : world sym)
   forall p, ~ In p (plan_targets pack) -> fget (fn_world st) p = fget w1 p.
 Proof. exact fine_frame_sym. Qed.
 Print Assumptions C09_frame_in_every_state_of_every_interleaving.
+
+(* ---- clean under every interleaving of its rule threads (round 4; Model/CleanFine.v, Proofs/CleanFine*.v) ----
+   Paths outside the plan's targets keep their file in every state of every run of a clean; without a plan nothing changes. *)
+From Coq Require Import Relations.
+From Ruler Require Import Bytes AList RuleSyntax TopoSort World Work Build Ops Inv InvFacts BuildSpec C01Facts C02Sym CoarseInv C18CoarseFacts Sched Fine FineCor CleanFine CleanFineBasic CleanFineInv CleanFineFacts.
+Local Open Scope nat_scope.
+
+Theorem C09_clean_frame_under_every_interleaving : forall (w : world sym) rp goal w1 tbl pack ch p,
+  init_dir sym w = Ok (w1, tbl) -> get_nodes sym w1 rp goal = Ok pack ->
+  ~ In p (plan_targets pack) ->
+  fget (o_world (clean_fine_sym ch w rp goal)) p = fget w p.
+Proof. exact clean_fine_frame_sym. Qed.
+Print Assumptions C09_clean_frame_under_every_interleaving.
+
+Theorem C09_clean_without_plan_under_every_interleaving : forall (w : world sym) rp goal ch,
+  (forall w1 tbl pack, init_dir sym w = Ok (w1, tbl) -> get_nodes sym w1 rp goal <> Ok pack) ->
+  w_files (o_world (clean_fine_sym ch w rp goal)) = w_files w.
+Proof. exact clean_fine_frame_fatal_sym. Qed.
+Print Assumptions C09_clean_without_plan_under_every_interleaving.
